@@ -307,6 +307,40 @@ func apiBuiltObjects() []poolObj {
 			},
 			setOpt: func(o sizedObj) { o.(*mp4.MediaSegment).EncOptimize = mp4.OptimizeTrun }})
 	}
+	// mdat boxes and fragments whose payload is held as DataParts (the exported field is also set directly by callers)
+	pool = append(pool, poolObj{Name: "api:mdat:dataparts-literal", Kind: "box", Type: "mdat", fresh: func() (sizedObj, error) {
+		return &mp4.MdatBox{DataParts: [][]byte{{1, 2, 3}, {4, 5}, {}}}, nil
+	}})
+	pool = append(pool, poolObj{Name: "api:mdat:dataparts-added-and-appended", Kind: "box", Type: "mdat", fresh: func() (sizedObj, error) {
+		m := &mp4.MdatBox{}
+		m.AddSampleDataPart([]byte{9, 8, 7, 6})
+		m.DataParts = append(m.DataParts, []byte{5, 4})
+		return m, nil
+	}})
+	pool = append(pool, poolObj{Name: "api:mdat:dataparts-reset-and-refilled", Kind: "box", Type: "mdat", fresh: func() (sizedObj, error) {
+		m := &mp4.MdatBox{}
+		m.AddSampleDataPart(make([]byte, 100))
+		m.DataParts = m.DataParts[:0]
+		m.AddSampleDataPart([]byte{1, 2, 3})
+		return m, nil
+	}})
+	pool = append(pool, poolObj{Name: "api:frag:sample-intervals-reused", Kind: "fragment", Type: "fragment", fresh: func() (sizedObj, error) {
+		frag, err := mp4.CreateFragment(7, 1)
+		if err != nil {
+			return nil, err
+		}
+		smp := []mp4.Sample{{Flags: 0x02000000, Dur: 10, Size: 5}, {Flags: 0x01010000, Dur: 10, Size: 6}}
+		if err := frag.AddSampleInterval(mp4.SampleInterval{FirstDecodeTime: 100, Samples: smp, Size: 11, Data: tokenBytes(1, 1, 11)}); err != nil {
+			return nil, err
+		}
+		// reuse the fragment object for the next interval, as a segmenter that recycles its fragment does
+		frag.Mdat.DataParts = frag.Mdat.DataParts[:0]
+		frag.Moof.Traf.Trun.Samples = frag.Moof.Traf.Trun.Samples[:0]
+		if err := frag.AddSampleInterval(mp4.SampleInterval{FirstDecodeTime: 120, Samples: smp[:1], Size: 5, Data: tokenBytes(1, 2, 5)}); err != nil {
+			return nil, err
+		}
+		return frag, nil
+	}})
 	// init segments through the API
 	for _, desc := range []string{"avc1", "hvc1", "aac2", "aac29", "ac3", "ec3", "wvtt", "stpp", "none"} {
 		desc := desc
